@@ -193,6 +193,21 @@ def m_inv(A):
     return m_unary(np.linalg.inv, A, tol=TOL * max(1.0, cond) * 10)
 
 
+def m_reduce_keepdims(name, A, axis):
+    """reduction with keepdims=True: the value of the plain reduction with the reduced axes kept as size 1; still a field only when
+    no element / Gauss-point axis was consumed"""
+    base = m_reduce(name, A, axis)
+    full = _NPRED[name](A.a, axis=axis, keepdims=True)
+    return MV(base.kind, full, floor=base.floor, tol=base.tol)
+
+
+def m_accumulate(fn, A, axis):
+    """ufunc.accumulate / cumsum: same shape as the operand; a field when it runs along a tensor axis (per-(e,p) operation); along an
+    element / Gauss-point axis the axes are preserved as well"""
+    ax = axis if axis >= 0 else A.a.ndim + axis
+    return MV("fe", fn(A.a, axis=axis), floor=A.mag)  # every axis is preserved (also the element / Gauss-point ones): still a field
+
+
 def m_reshape(A, shape, order="C"):
     if A.kind != "fe":
         raise Undefined("not a field")
@@ -510,6 +525,11 @@ def reducer_terms(X, lvl=2):
                           lambda A, name=name, ax=ax: m_reduce(name, A, ax))
                 yield _t1("reducer_np", "np." + name + "({a}," + f"{ax})", X, lambda x, npf=npf, ax=ax: npf(x, ax),
                           lambda A, name=name, ax=ax: m_reduce(name, A, ax))
+        # keepdims=True keeps the NUMBER of axes, not the element / Gauss-point axes: the typing rule is the same
+        if lvl >= 1 and not arg_only:
+            for ax in [a for a in axis_args(n, False, 0) if not isinstance(a, tuple)]:
+                yield _t1("reducer_method", "{a}." + name + f"(axis={_ax(ax)},keepdims=True)", X, lambda x, name=name, ax=ax: getattr(x, name)(axis=ax, keepdims=True),
+                          lambda A, name=name, ax=ax: m_reduce_keepdims(name, A, ax))
         yield _t1("reducer_method", "{a}." + name + "()", X, lambda x, name=name: getattr(x, name)(), lambda A, name=name: m_reduce(name, A, None))
         yield _t1("reducer_np", "np." + name + "({a})", X, lambda x, npf=npf: npf(x), lambda A, name=name: m_reduce(name, A, None))
     for name in (_NP_ONLY_REDUCERS if lvl >= 1 else _NP_ONLY_REDUCERS[2:3]):
@@ -517,6 +537,12 @@ def reducer_terms(X, lvl=2):
         for ax in axis_args(n, False, lvl):
             yield _t1("reducer_np_other", "np." + name + "({a}," + f"axis={_ax(ax)})", X, lambda x, npf=npf, ax=ax: npf(x, axis=ax),
                       lambda A, name=name, ax=ax: m_reduce(name, A, ax))
+    if lvl >= 1:
+        for ax in range(0, n):
+            yield _t1("ufunc_accumulate", "np.add.accumulate({a}," + f"axis={ax})", X, lambda x, ax=ax: np.add.accumulate(x, axis=ax),
+                      lambda A, ax=ax: m_accumulate(np.add.accumulate, A, ax))
+            yield _t1("ufunc_accumulate", "{a}.cumsum(" + f"axis={ax})", X, lambda x, ax=ax: x.cumsum(axis=ax),
+                      lambda A, ax=ax: m_accumulate(np.cumsum, A, ax))
     for name in (_UFUNC_REDUCE if lvl >= 1 else _UFUNC_REDUCE[:1]):
         uf = _NPRED[name]
         for ax in axis_args(n, False, min(lvl, 1)):
@@ -581,6 +607,16 @@ def unary_terms(X, lvl=2):
         kw = {} if ax is None else {"axis": ax}
         yield _t1("Norm", "Norm({a}" + ("" if ax is None else f",axis={_ax(ax)}") + ")", X, lambda x, kw=kw: LA.Norm(x, **kw),
                   lambda A, ax=ax: m_norm(A, ax))
+    # the documented `ord` argument: 2 = euclidean norm of a vector, spectral norm of a matrix
+    if lvl >= 1:
+        if r_ >= 1:
+            yield _t1("Norm", "Norm({a},axis=-1,ord=2)", X, lambda x: LA.Norm(x, axis=-1, ord=2),
+                      lambda A: _loop(lambda s_: np.linalg.norm(s_, axis=-1, ord=2), A, floor=A.mag))
+        if r_ >= 2:
+            yield _t1("Norm", "Norm({a},axis=(-2,-1),ord=2)", X, lambda x: LA.Norm(x, axis=(-2, -1), ord=2),
+                      lambda A: _loop(lambda s_: np.linalg.norm(s_, axis=(-2, -1), ord=2), A, floor=A.mag))
+            yield _t1("Norm", "Norm({a},axis=(-2,-1),ord='fro')", X, lambda x: LA.Norm(x, axis=(-2, -1), ord="fro"),
+                      lambda A: _loop(lambda s_: np.linalg.norm(s_, axis=(-2, -1), ord="fro"), A, floor=A.mag))
     if r_ >= 1:
         yield _t1("Normalize", "Normalize({a})", X, LA.Normalize, lambda A: m_normalize(A, -1))
         for ax in range(2, n):
